@@ -426,6 +426,15 @@ func drivers(quick bool) []conc.Driver {
 	}
 	// two Map calls at the same time (sets of 1 and 2 elements, one worker each)
 	add("map-pair-s1-t1-c1", mapPair(1, 1, 1))
+	// chunks of more than one element: every set size 5..64 on four workers with no limit on the chunk
+	// size (chunks of 2..16, every remainder), ONE schedule each
+	for n := 5; n <= 64; n++ {
+		cfg0 := cfg
+		cfg0.Canonical = true
+		cfg0.Symmetry = false
+		cfg0.Horizon = 1000000
+		ds = append(ds, conc.Driver{Name: fmt.Sprintf("map-s%d-t4-c1000-canonical", n), Cfg: cfg0, Mk: mapper(n, 4, 1000)})
+	}
 	add("promisemap-s0-t1-c1", mapDriver(0, 1, 1, true))
 	add("promisemap-s1-t2-c1", mapDriver(1, 2, 1, true))
 	if !quick {
